@@ -186,3 +186,46 @@ Theorem C12_model_sources_reviewed :
     Sylt.Doc.DocSrcDigest.doc_src_digests Sylt.Gen.GenSrcDigest.src_digests = true.
 Proof. vm_compute. reflexivity. Qed.
 Print Assumptions C12_model_sources_reviewed.
+
+(* ---- the spelling of the main path (Resolve/Respell.v) ----
+   C12_tree_respell   if every path of a project is rewritten by an injective function rho such that, for every use
+                      statement of every file of the project, the file it denotes computed from the rewritten current
+                      file and the rewritten main file is the rewritten file, then module discovery on the rewritten
+                      project is module discovery on the project, rewritten: the same files in the same order with
+                      the same file ids (so C12_visit_once transfers), the same failures.
+   C12_tree_prefix    for rho = "this prefix in front of every path" the condition is the computable check
+                      respell_okb; C12_respell_example: it holds of the example project written with bare file names
+                      for the prefixes "" (main.sy), "./" (./main.sy), "proj/" and "/abs/dir/" -- and fails, as it
+                      must, for a prefix without the trailing slash.  No counter-example exists in the unchanged code
+                      for these spellings; the one that existed in a seeded variant (root "." for a bare main path)
+                      is what the shared-state oracle family of tools/props/c12.py catches. *)
+From Sylt Require Import Resolve.Respell.
+
+Theorem C12_tree_respell : forall rho lib_uses m main std,
+  (forall a b, rho a = rho b -> a = b) ->
+  (forall cur parses us u, fmap_get m cur = Some (FSource parses us) -> In u us ->
+     use_path (map fst lib_uses) (parent (rho main)) (File (rho cur)) u
+     = ofol rho (use_path (map fst lib_uses) (parent main) (File cur) u)) ->
+  tree lib_uses (rmap rho m) (rho main) std = rres rho (tree lib_uses m main std).
+Proof. exact tree_respell. Qed.
+
+Theorem C12_tree_prefix : forall p lib_uses m main std mods,
+  respell_okb (map fst lib_uses) p m main = true ->
+  tree lib_uses m main std = TOk mods ->
+  tree lib_uses (rmap (append p) m) (p ++ main)%string std
+  = TOk (map (fun e => (rfol (append p) (fst e), snd e)) mods).
+Proof. exact tree_prefix_modules. Qed.
+
+Example C12_respell_example :
+  let libs := map fst gen_std_uses in
+  respell_okb libs "" ex_proj "main.sy" = true
+  /\ respell_okb libs "./" ex_proj "main.sy" = true
+  /\ respell_okb libs "proj/" ex_proj "main.sy" = true
+  /\ respell_okb libs "/abs/dir/" ex_proj "main.sy" = true
+  /\ respell_okb libs "proj" ex_proj "main.sy" = false
+  /\ tree gen_std_uses (rmap (append "./") ex_proj) "./main.sy" false
+     = TOk [(File "./main.sy", 0); (File "./b.sy", 1); (File "./d/exports.sy", 2); (File "./d/c.sy", 3); (File "./a.sy", 4)].
+Proof. vm_compute. repeat split. Qed.
+
+Print Assumptions C12_tree_respell.
+Print Assumptions C12_tree_prefix.
